@@ -57,6 +57,51 @@ def reference_reading(text, env):
         return None
 
 
+def neg_quotient_left(t):
+    """The one shape for which the unchanged printer emits text that only the documented grammar reads
+    correctly: a negation of a quotient standing as the LEFT operand of * or /."""
+    if t is None:
+        return False
+    if kind(t) in ("MultiplyExpression", "DivideExpression") and t.left is not None and kind(t.left) == "NegateExpression":
+        c = t.left.get_child()
+        while c is not None and kind(c) == "MultiplyExpression":
+            c = c.left
+        if c is not None and kind(c) == "DivideExpression":
+            return True
+    return neg_quotient_left(t.left) or neg_quotient_left(t.right)
+
+
+def roundtrip(t, desc, parser, fails):
+    if True:
+        text = str(t)
+        try:
+            back = parser.parse(text)
+        except Exception as e:  # noqa: BLE001
+            fails.append({"clause": "text-is-accepted", "detail": f"`{text}` (tree {desc}) rejected: {type(e).__name__}"})
+            return
+        if variables(back) != variables(t):
+            fails.append({"clause": "same-variables", "detail": f"`{text}`: {sorted(variables(t))} -> {sorted(variables(back))}"})
+            return
+        for env in ENVS:
+            a, b = ev(t, env), ev(back, env)
+            if a is None and b is None:
+                continue
+            if a is None or b is None:
+                ref = reference_reading(text, env)
+                tag = "parser-right-fold: " if (neg_quotient_left(t) and (ref is None) == (a is None) and (ref is None or isinstance(ref, tuple) or close(ref, a))) else ""
+                fails.append({"clause": "same-value", "detail": f"{tag}`{text}` (tree {desc}): defined-ness differs at {env}"})
+                break
+            if isinstance(a, tuple) or isinstance(b, tuple):
+                if not (isinstance(a, tuple) and isinstance(b, tuple) and holds(a) == holds(b) and close(a[1], b[1]) and close(a[2], b[2])):
+                    fails.append({"clause": "same-value", "detail": f"`{text}` (tree {desc}): equation sides differ after re-parsing"})
+                    break
+            elif not close(a, b):
+                ref = reference_reading(text, env)
+                tag = "parser-right-fold: " if (neg_quotient_left(t) and ref is not None and not isinstance(ref, tuple) and close(ref, a)) else ""
+                fails.append({"clause": "same-value", "detail": f"{tag}`{text}` (tree {desc}) evaluates to {float(a)} but its text re-parses to `{back}` = {float(b)} at {env}"})
+                break
+
+
 def work(chunk):
     fails = []
     n = 0
@@ -66,33 +111,65 @@ def work(chunk):
         if not parser_reachable(t):
             continue
         n += 1
-        text = str(t)
-        try:
-            back = parser.parse(text)
-        except Exception as e:  # noqa: BLE001
-            fails.append({"clause": "text-is-accepted", "detail": f"`{text}` (tree {desc}) rejected: {type(e).__name__}"})
-            continue
-        if variables(back) != variables(t):
-            fails.append({"clause": "same-variables", "detail": f"`{text}`: {sorted(variables(t))} -> {sorted(variables(back))}"})
-            continue
-        for env in ENVS:
-            a, b = ev(t, env), ev(back, env)
-            if a is None and b is None:
-                continue
-            if a is None or b is None:
-                ref = reference_reading(text, env)
-                tag = "parser-right-fold: " if ((ref is None) == (a is None) and (ref is None or isinstance(ref, tuple) or close(ref, a))) else ""
-                fails.append({"clause": "same-value", "detail": f"{tag}`{text}` (tree {desc}): defined-ness differs at {env}"})
-                break
-            if isinstance(a, tuple) or isinstance(b, tuple):
-                if not (isinstance(a, tuple) and isinstance(b, tuple) and holds(a) == holds(b) and close(a[1], b[1]) and close(a[2], b[2])):
-                    fails.append({"clause": "same-value", "detail": f"`{text}` (tree {desc}): equation sides differ after re-parsing"})
-                    break
-            elif not close(a, b):
-                ref = reference_reading(text, env)
-                tag = "parser-right-fold: " if (ref is not None and not isinstance(ref, tuple) and close(ref, a)) else ""
-                fails.append({"clause": "same-value", "detail": f"{tag}`{text}` (tree {desc}) evaluates to {float(a)} but its text re-parses to `{back}` = {float(b)} at {env}"})
-                break
+        roundtrip(t, desc, parser, fails)
+    return n, fails
+
+
+# ---- rewritten forms: Op1(A, Op2(B, C)) and Op1(Op2(B, C), A) over operand shapes, every rule at every node,
+# the RESULT OBJECT of apply_to printed as it is (not re-cloned: parent links are what the printer reads)
+SHAPES = [("c", 2), ("v", "x"), ("NegateExpression", ("v", "x")), ("DivideExpression", ("v", "x"), ("c", 2)), ("MultiplyExpression", ("c", 3), ("v", "y")),
+          ("PowerExpression", ("v", "y"), ("c", 2)), ("AddExpression", ("v", "y"), ("c", 3)), ("c", -3)]
+OPS2 = ["AddExpression", "SubtractExpression", "MultiplyExpression", "DivideExpression", "PowerExpression"]
+
+
+def rewritten_forms(nshapes):
+    sh = SHAPES[:nshapes]
+    out = []
+    for o1 in OPS2:
+        for o2 in OPS2:
+            for a in sh:
+                for b in sh:
+                    for c in sh:
+                        out.append((o1, a, (o2, b, c)))
+                        out.append((o1, (o2, b, c), a))
+    for a in sh:
+        for b in sh:
+            out.append(("NegateExpression", ("SubtractExpression", a, b)))
+            out.append(("SubtractExpression", a, ("NegateExpression", b)))
+            for o1 in ("AddExpression", "MultiplyExpression"):
+                out.append(("EqualExpression", (o1, a, b), ("c", 7)))
+    return out
+
+
+def work_rewritten(chunk):
+    from rules_tierb import RULES, make_rule
+    from treelib import nodes_inorder
+
+    fails = []
+    n = 0
+    parser = ExpressionParser()
+    rules = {name: make_rule(name) for name in RULES}
+    for desc in chunk:
+        root = realise(desc)
+        nodes = nodes_inorder(root)
+        for rname, rule in rules.items():
+            for i, node in enumerate(nodes):
+                try:
+                    if not rule.can_apply_to(node):
+                        continue
+                    fresh = realise(desc)
+                    res = rule.apply_to(nodes_inorder(fresh)[i]).result.get_root()
+                except Exception:  # noqa: BLE001  (C06's business)
+                    continue
+                if not parser_reachable(res):
+                    continue
+                n += 1
+                mine = []
+                try:
+                    roundtrip(res, f"{rname} at `{node}` of `{root}`", parser, mine)
+                except Exception as e:  # noqa: BLE001
+                    mine.append({"clause": "text-is-accepted", "detail": f"printing the result of {rname} at `{node}` of `{root}` raised {type(e).__name__}"})
+                fails += mine
     return n, fails
 
 
@@ -114,12 +191,20 @@ def main():
         for n, f in pool.imap_unordered(work, chunks):
             total += n
             fails += f
+    nshapes = int(sys.argv[3]) if len(sys.argv) > 3 else 6
+    forms = rewritten_forms(nshapes)
+    size = max(1, len(forms) // 128)
+    rewritten = 0
+    with mp.get_context("fork").Pool(16) as pool:
+        for n, f in pool.imap_unordered(work_rewritten, [forms[i : i + size] for i in range(0, len(forms), size)]):
+            rewritten += n
+            fails += f
     seen = {}
     for f in fails:
         key = (f["clause"], f["detail"].split(" (tree")[0][:40])
         seen.setdefault(key, f)
         seen[key]["count"] = seen[key].get("count", 0) + 1
-    print(json.dumps({"trees": total, "max_nodes": maxn, "max_equation_side_nodes": maxside, "leaves": [str(x) for x in LEAVES], "failures": list(seen.values())[:80], "n_failures": len(fails)}))
+    print(json.dumps({"trees": total, "rewritten_forms": len(forms), "rewritten_results": rewritten, "operand_shapes": nshapes, "max_nodes": maxn, "max_equation_side_nodes": maxside, "leaves": [str(x) for x in LEAVES], "failures": list(seen.values())[:80], "n_failures": len(fails)}))
     sys.exit(1 if fails else 0)
 
 
